@@ -161,7 +161,9 @@ def L17_acquireConnectionSlot : List String := [
   "end"
 ]
 def L17_releaseConnectionSlot : List String := [
-  "h.activeConnCount.Add(-1)"
+  "if current := h.activeConnCount.Load(); current > 0",
+  "h.activeConnCount.Store(current - 1)",
+  "end"
 ]
 def L17_connectionLimit : List String := [
   "maxConn := h.config.MaxConnections",
